@@ -300,6 +300,21 @@ def _execute(spec, world):
             if hasattr(type(core), "equations") and hasattr(type(core), "faces"):
                 nf, ne = len(core.faces), len(core.equations)
                 nn = len(core.neighbors) if hasattr(type(core), "neighbors") else nf
+                if nf == ne == nn and hasattr(type(core), "edges"):
+                    # ... and the edge list is the set of edges of the faces
+                    want = set()
+                    for f in core.faces:
+                        f = [int(i) for i in f]
+                        for a_, b_ in zip(f, f[1:] + f[:1]):
+                            want.add((min(a_, b_), max(a_, b_)))
+                    have = {(min(int(a_), int(b_)), max(int(a_), int(b_)))
+                            for a_, b_ in np.asarray(core.edges)}
+                    if have != want or int(core.num_edges) != len(want):
+                        res["violations"].append(violation(
+                            PROP, "structure", "after %s (%s): the edge list has %d edges, the "
+                            "faces have %d" % (name, r["outcome"], len(have), len(want)), si,
+                            cls=cls, op=name, what="edges-are-not-the-edges-of-the-faces"))
+                        break
                 if not (nf == ne == nn):
                     res["violations"].append(violation(
                         PROP, "structure", "after %s (%s): %d faces, %d plane equations, %d "
